@@ -372,3 +372,236 @@ def c17_view_sequences(tier="quick", seed=0):
     bad = [b for _, bs in rs for b in bs]
     return [ob("C17.bounded.view-sequences", not bad, "B", f"{tot} write sequences through 3 views over one ArrayBuffer agree with a byte model after every write" if not bad else
                f"engine {bad[0][1]!r} expected {bad[0][2]!r}", witness=(bad[0][0] if bad else None), confirmed=True if bad else None, domain=tot)]
+
+
+# =======================================================================================================================
+# K1: the searching methods (loops over the elements, proved with loop invariants for arrays of any length)
+# =======================================================================================================================
+import specs.es_ops as OPS
+
+
+@abstract("is_strictly_equal")
+def is_strictly_equal(a, b) -> "bool":
+    """IsStrictlyEqual (7.2.16) as an uninterpreted relation here: VM._strict_equals is proved equal to it for all
+    primitive operands in C06 (C06.helper._strict_equals); objects compare by identity"""
+    return OPS.strict_equals(a, b)
+
+
+@recursive
+def first_strict(arr, search, k) -> "int":
+    """least index >= k whose element is strictly equal to search, -1 if none (measure: len - k)"""
+    if k >= len(arr._elements):
+        return -1
+    if is_strictly_equal(arr._elements[k], search):
+        return k
+    return first_strict(arr, search, k + 1)
+
+
+def first_strict__ensures(arr, search, k, result):
+    return result == -1 or (k <= result and result < len(arr._elements))
+
+
+@recursive
+def last_strict(arr, search, k) -> "int":
+    """greatest index <= k whose element is strictly equal to search, -1 if none (measure: k + 1)"""
+    if k < 0:
+        return -1
+    if k < len(arr._elements) and is_strictly_equal(arr._elements[k], search):
+        return k
+    return last_strict(arr, search, k - 1)
+
+
+def last_strict__ensures(arr, search, k, result):
+    return result == -1 or (0 <= result and result <= k)
+
+
+def inv_index_of(arr, search, start, i__next):
+    return start >= 0 and i__next >= start and first_strict(arr, search, i__next) == first_strict(arr, search, start)
+
+
+def inv_last_index_of(arr, search, start, i__next):
+    top = min(start, len(arr._elements) - 1)
+    return -1 <= i__next and i__next <= top and last_strict(arr, search, i__next) == last_strict(arr, search, top)
+
+
+def c_index_of(vm: Obj("VM"), arr: Obj("JSArray"), search: JSPrim, from_index: IntRange(-2 ** 53, 2 ** 53), has_from: Bool):
+    """Array.prototype.indexOf (23.1.3.17): first index k >= the relative start with elements[k] === search"""
+    n = len(arr._elements)
+    r = outcome(REAL, search, from_index) if has_from else outcome(REAL, search)
+    check("never-raises", r[0] == "ret")
+    f = from_index if has_from else 0      # an integral fromIndex (other values: values.to_integer, C06)
+    k = f if f >= 0 else (n + f if n + f > 0 else 0)
+    check("post", r[1] == first_strict(arr, search, k))
+
+
+def c_last_index_of(vm: Obj("VM"), arr: Obj("JSArray"), search: JSPrim, from_index: IntRange(-2 ** 53, 2 ** 53), has_from: Bool):
+    """Array.prototype.lastIndexOf (23.1.3.20): last index k <= the relative start with elements[k] === search"""
+    n = len(arr._elements)
+    r = outcome(REAL, search, from_index) if has_from else outcome(REAL, search)
+    check("never-raises", r[0] == "ret")
+    f = from_index if has_from else n - 1
+    k = (f if f < n - 1 else n - 1) if f >= 0 else n + f
+    check("post", r[1] == last_strict(arr, search, k))
+
+
+def _native_array_method(name):
+    def make(vm, arr):
+        return vm._make_array_method(arr, name)
+    return make
+
+
+def spec_to_integer_of_int(v):
+    return v
+
+
+ARR_SUMM = {"microjs.values:to_integer": spec_to_integer_of_int}
+
+
+def spec_strict_equals(vm, a, b):
+    return is_strictly_equal(a, b)
+
+
+ARR_SUMM["microjs.vm:VM._strict_equals"] = spec_strict_equals
+register(c_index_of, id="C17.array.indexOf", prop="C17", target=closure("microjs.vm", "VM._make_array_method", "indexOf_fn"), env=("vm", "arr"),
+         native=_native_array_method("indexOf"), summaries=ARR_SUMM, heap_inputs=True,
+         invariants={("microjs.vm:VM._make_array_method.<indexOf_fn>", "range(start, len(arr._elements))"): inv_index_of})
+register(c_last_index_of, id="C17.array.lastIndexOf", prop="C17", target=closure("microjs.vm", "VM._make_array_method", "lastIndexOf_fn"), env=("vm", "arr"),
+         native=_native_array_method("lastIndexOf"), summaries=ARR_SUMM, heap_inputs=True,
+         invariants={("microjs.vm:VM._make_array_method.<lastIndexOf_fn>", "range(min(start, len(arr._elements) - 1), -1, -1)"): inv_last_index_of})
+
+
+def _is_nan(v):
+    return isinstance(v, float) and v != v
+
+
+@recursive
+def first_svz(arr, search, k) -> "int":
+    """least index >= k whose element is SameValueZero-equal to search (NaN finds NaN), -1 if none"""
+    if k >= len(arr._elements):
+        return -1
+    e = arr._elements[k]
+    if (_is_nan(search) and _is_nan(e)) or is_strictly_equal(e, search):
+        return k
+    return first_svz(arr, search, k + 1)
+
+
+def first_svz__ensures(arr, search, k, result):
+    return result == -1 or (k <= result and result < len(arr._elements))
+
+
+def inv_includes(arr, search, start, i__next):
+    return start >= 0 and i__next >= start and first_svz(arr, search, i__next) == first_svz(arr, search, start)
+
+
+def c_includes(vm: Obj("VM"), arr: Obj("JSArray"), search: JSPrim, from_index: IntRange(-2 ** 53, 2 ** 53), has_from: Bool):
+    """Array.prototype.includes (23.1.3.16): some element from the relative start on is SameValueZero-equal to search"""
+    n = len(arr._elements)
+    r = outcome(REAL, search, from_index) if has_from else outcome(REAL, search)
+    check("never-raises", r[0] == "ret")
+    f = from_index if has_from else 0
+    k = f if f >= 0 else (n + f if n + f > 0 else 0)
+    check("post", r[1] is (first_svz(arr, search, k) >= 0))
+
+
+register(c_includes, id="C17.array.includes", prop="C17", target=closure("microjs.vm", "VM._make_array_method", "includes_fn"), env=("vm", "arr"),
+         native=_native_array_method("includes"), summaries=ARR_SUMM, heap_inputs=True,
+         invariants={("microjs.vm:VM._make_array_method.<includes_fn>", "range(start, len(arr._elements))"): inv_includes})
+
+
+# ---- K1: the loop-free element-moving methods (sequence theory; arrays of any length) ---------------------------------
+def _rel(i, n):
+    """relative index clamped to [0, n] (23.1.3: relativeStart / relativeEnd)"""
+    if i < 0:
+        return n + i if n + i > 0 else 0
+    return i if i < n else n
+
+
+def c_arr_slice(vm: Obj("VM"), arr: Obj("JSArray"), a: IntRange(-2 ** 53, 2 ** 53), b: IntRange(-2 ** 53, 2 ** 53)):
+    """slice(a, b) (23.1.3.28): a NEW array with the elements from relative a up to relative b; the receiver is unchanged"""
+    old = arr._elements[:]
+    n = len(old)
+    r = outcome(REAL, a, b) if NARGS == 2 else (outcome(REAL, a) if NARGS == 1 else outcome(REAL))
+    check("never-raises", r[0] == "ret")
+    k = _rel(a, n) if NARGS >= 1 else 0
+    f = _rel(b, n) if NARGS == 2 else n
+    res = r[1]
+    check("result-is-a-new-array", isinstance(res, JSArray) and not same_ref(res, arr))
+    if isinstance(res, JSArray):
+        check("result-elements", same_elements(res._elements, old[k:f] if f > k else []))
+        check("result-does-not-share-storage", not same_ref(res._elements, arr._elements))
+    check("receiver-unchanged", same_elements(arr._elements, old))
+
+
+def c_arr_splice(vm: Obj("VM"), arr: Obj("JSArray"), start: IntRange(-2 ** 53, 2 ** 53), count: IntRange(-2 ** 53, 2 ** 53), item: JSVal):
+    """splice(start, count, item) (23.1.3.31): removes count elements at the relative start, inserts item there, returns the
+    removed elements in a new array"""
+    old = arr._elements[:]
+    n = len(old)
+    r = outcome(REAL, start, count, item)
+    check("never-raises", r[0] == "ret")
+    k = _rel(start, n)
+    d = count if count > 0 else 0
+    d = d if d < n - k else n - k
+    res = r[1]
+    check("result-is-a-new-array", isinstance(res, JSArray) and not same_ref(res, arr))
+    if isinstance(res, JSArray):
+        check("result-is-the-removed-run", same_elements(res._elements, old[k:k + d]))
+    check("receiver-after", same_elements(arr._elements, old[:k] + [item] + old[k + d:]))
+
+
+def c_arr_pop_shift(vm: Obj("VM"), arr: Obj("JSArray")):
+    """pop() / shift(): remove and return the last / first element, undefined on an empty array"""
+    old = arr._elements[:]
+    n = len(old)
+    r = outcome(REAL)
+    check("never-raises", r[0] == "ret")
+    if n == 0:
+        check("empty.returns-undefined", same_ref(r[1], UNDEFINED))
+        check("empty.unchanged", same_elements(arr._elements, old))
+    elif WHICH == "pop":
+        check("returns-last", same_value(r[1], old[n - 1]))
+        check("receiver-after", same_elements(arr._elements, old[:n - 1]))
+    else:
+        check("returns-first", same_value(r[1], old[0]))
+        check("receiver-after", same_elements(arr._elements, old[1:]))
+
+
+def c_arr_push_unshift(vm: Obj("VM"), arr: Obj("JSArray"), x: JSVal, y: JSVal):
+    """push(x, y) appends in order, unshift(x, y) prepends in order; both return the new length"""
+    old = arr._elements[:]
+    r = outcome(REAL, x, y)
+    check("never-raises", r[0] == "ret")
+    check("returns-new-length", r[1] == len(old) + 2)
+    if WHICH == "push":
+        check("receiver-after", same_elements(arr._elements, old + [x, y]))
+    else:
+        check("receiver-after", same_elements(arr._elements, [x, y] + old))
+
+
+def c_arr_concat(vm: Obj("VM"), arr: Obj("JSArray"), other: Obj("JSArray"), x: JSPrim):
+    """concat(other, x): a new array with the receiver's elements, the elements of an array argument (spread one level) and
+    a non-array argument itself; neither operand changes"""
+    old, oo = arr._elements[:], other._elements[:]
+    r = outcome(REAL, other, x)
+    check("never-raises", r[0] == "ret")
+    res = r[1]
+    check("result-is-a-new-array", isinstance(res, JSArray) and not same_ref(res, arr) and not same_ref(res, other))
+    if isinstance(res, JSArray):
+        check("result-elements", same_elements(res._elements, old + oo + [x]))
+    check("operands-unchanged", same_elements(arr._elements, old) and same_elements(other._elements, oo))
+
+
+from microjs.values import JSArray, UNDEFINED, NULL      # noqa: E402
+for _k in (0, 1, 2):
+    register(c_arr_slice, id=f"C17.array.slice.{_k}-args", prop="C17", target=closure("microjs.vm", "VM._make_array_method", "slice_fn"), env=("vm", "arr"),
+             native=_native_array_method("slice"), summaries=ARR_SUMM, heap_inputs=True, bind={"NARGS": _k}, prim_args=False)
+register(c_arr_splice, id="C17.array.splice", prop="C17", target=closure("microjs.vm", "VM._make_array_method", "splice_fn"), env=("vm", "arr"),
+         native=_native_array_method("splice"), summaries=ARR_SUMM, heap_inputs=True, prim_args=False)
+for _w in ("pop", "shift"):
+    register(c_arr_pop_shift, id=f"C17.array.{_w}", prop="C17", target=closure("microjs.vm", "VM._make_array_method", f"{_w}_fn"), env=("vm", "arr"),
+             native=_native_array_method(_w), heap_inputs=True, bind={"WHICH": _w}, prim_args=False)
+for _w in ("push", "unshift"):
+    register(c_arr_push_unshift, id=f"C17.array.{_w}", prop="C17", target=closure("microjs.vm", "VM._make_array_method", f"{_w}_fn"), env=("vm", "arr"),
+             native=_native_array_method(_w), heap_inputs=True, bind={"WHICH": _w}, prim_args=False)
+register(c_arr_concat, id="C17.array.concat", prop="C17", target=closure("microjs.vm", "VM._make_array_method", "concat_fn"), env=("vm", "arr"),
+         native=_native_array_method("concat"), heap_inputs=True, prim_args=False)
